@@ -172,25 +172,37 @@ std::string diff_param(const SnapParam &a, const SnapParam &b, bool up, std::str
 
 static bool all_subs_empty(const SnapFrame &f) { for (auto &s : f.subs) if (!s.empty()) return false; return true; }
 
+static std::string diff_frame_impl(const SnapFrame &a, const SnapFrame &b, std::string *facet);
 std::string diff_frame(const SnapFrame &a0, const SnapFrame &b0, std::string *facet, bool ignoreEmptySubs) {
-    SnapFrame a = a0, b = b0;
-    if (ignoreEmptySubs) { if (all_subs_empty(a)) a.subs.clear(); if (all_subs_empty(b)) b.subs.clear(); }
+    if (a0 == b0) return "";
+    if (ignoreEmptySubs && (all_subs_empty(a0) || all_subs_empty(b0)) && a0.subs.size() != b0.subs.size()) {
+        SnapFrame a = a0, b = b0;
+        if (all_subs_empty(a)) a.subs.clear();
+        if (all_subs_empty(b)) b.subs.clear();
+        return diff_frame_impl(a, b, facet);
+    }
+    return diff_frame_impl(a0, b0, facet);
+}
+static std::string diff_frame_impl(const SnapFrame &a, const SnapFrame &b, std::string *facet) {
     DIFF_FIELD("nbPoints", "frame.nbPoints", a.pts.size(), b.pts.size(), fmt_u)
     for (size_t i = 0; i < a.pts.size(); ++i) {
-        std::string p = "point[" + tos(i) + "].";
-        DIFF_FIELD(p + "name", "frame.point.name", a.pts[i].name, b.pts[i].name, q)
-        DIFF_FIELD(p + "x", "frame.point.x", a.pts[i].x, b.pts[i].x, hex32)
-        DIFF_FIELD(p + "y", "frame.point.y", a.pts[i].y, b.pts[i].y, hex32)
-        DIFF_FIELD(p + "z", "frame.point.z", a.pts[i].z, b.pts[i].z, hex32)
-        DIFF_FIELD(p + "residual", "frame.point.residual", a.pts[i].r, b.pts[i].r, hex32)
+        if (a.pts[i] == b.pts[i]) continue;
+#define PP(x) (std::string("point[") + tos(i) + "]." + x)
+        DIFF_FIELD(PP("name"), "frame.point.name", a.pts[i].name, b.pts[i].name, q)
+        DIFF_FIELD(PP("x"), "frame.point.x", a.pts[i].x, b.pts[i].x, hex32)
+        DIFF_FIELD(PP("y"), "frame.point.y", a.pts[i].y, b.pts[i].y, hex32)
+        DIFF_FIELD(PP("z"), "frame.point.z", a.pts[i].z, b.pts[i].z, hex32)
+        DIFF_FIELD(PP("residual"), "frame.point.residual", a.pts[i].r, b.pts[i].r, hex32)
+#undef PP
     }
     DIFF_FIELD("nbSubframes", "frame.nbSubframes", a.subs.size(), b.subs.size(), fmt_u)
     for (size_t k = 0; k < a.subs.size(); ++k) {
-        std::string p = "sub[" + tos(k) + "].";
-        DIFF_FIELD(p + "nbChannels", "frame.nbChannels", a.subs[k].size(), b.subs[k].size(), fmt_u)
+        if (a.subs[k] == b.subs[k]) continue;
+        DIFF_FIELD("sub[" + tos(k) + "].nbChannels", "frame.nbChannels", a.subs[k].size(), b.subs[k].size(), fmt_u)
         for (size_t c = 0; c < a.subs[k].size(); ++c) {
-            DIFF_FIELD(p + "ch[" + tos(c) + "].name", "frame.channel.name", a.subs[k][c].name, b.subs[k][c].name, q)
-            DIFF_FIELD(p + "ch[" + tos(c) + "].value", "frame.channel.value", a.subs[k][c].v, b.subs[k][c].v, hex32)
+            if (a.subs[k][c] == b.subs[k][c]) continue;
+            DIFF_FIELD("sub[" + tos(k) + "].ch[" + tos(c) + "].name", "frame.channel.name", a.subs[k][c].name, b.subs[k][c].name, q)
+            DIFF_FIELD("sub[" + tos(k) + "].ch[" + tos(c) + "].value", "frame.channel.value", a.subs[k][c].v, b.subs[k][c].v, hex32)
         }
     }
     return "";
@@ -242,6 +254,7 @@ std::string diff_snapshots(const Snapshot &a, const Snapshot &b, const DiffOpts 
         DIFF_FIELD("parameters.nbGroups", "parameters.nbGroups", a.groups.size(), b.groups.size(), fmt_u)
         for (size_t g = 0; g < a.groups.size(); ++g) {
             const SnapGroup &ga = a.groups[g], &gb = b.groups[g];
+            if (!o.upper_names && !o.skip_data_start && ga.name == gb.name && ga.desc == gb.desc && ga.locked == gb.locked && ga.params == gb.params) continue;
             std::string gp = "group[" + tos(g) + "]";
             std::string gan = o.upper_names ? upper(ga.name) : ga.name, gbn = o.upper_names ? upper(gb.name) : gb.name;
             DIFF_FIELD(gp + ".name", "group.name", gan, gbn, q)
@@ -282,8 +295,13 @@ std::string diff_snapshots(const Snapshot &a, const Snapshot &b, const DiffOpts 
 namespace {
 struct Hasher {
     uint64_t h = 0xcbf29ce484222325ULL;
-    void u(uint64_t v) { h = hash_bytes(&v, 8, h); }
-    void s(const std::string &x) { u(x.size()); h = hash_str(x, h); }
+    inline void u(uint64_t v) { h = (h ^ v) * 0x9e3779b97f4a7c15ULL; h ^= h >> 29; }
+    void s(const std::string &x) {
+        u(x.size());
+        size_t i = 0;
+        for (; i + 8 <= x.size(); i += 8) { uint64_t w; __builtin_memcpy(&w, x.data() + i, 8); u(w); }
+        if (i < x.size()) { uint64_t w = 0; __builtin_memcpy(&w, x.data() + i, x.size() - i); u(w); }
+    }
 };
 } // namespace
 
